@@ -10,15 +10,16 @@ SPEC = dict(
          "declared lengths exceeding the data, appended garbage, random bytes, arguments of Z_I-1..Z_I+Z_Z+1 bytes, z up to 4096 pages "
          "(65535 in thorough). Compared with the extracted Go-shaped model (repaired shape): accept/reject, instruction and block counts, "
          "jump-table fields, page count, heap pointer/limit, machine's result register, the halt output of the refine program; the model "
-         "never predicts a Go panic. Per case the runtime.MemStats.TotalAlloc delta of the call must be within the proved bound "
-         "(+ the page map's own storage, <= declared/32); gas used <= limit; a 15 s watchdog and a heap guard turn a hang into HANG/OOM. "
+         "never predicts a Go panic. Per case the runtime.MemStats.TotalAlloc delta of the call must be <= 21/20 of the model's exact "
+         "allocation account + a fixed slack (512 B; + declared/32 for the page map's buckets; + declared + 8 KiB for a run) and the "
+         "account within the proved bound; gas used <= limit; a 15 s watchdog and a heap guard turn a hang into HANG/OOM. "
          "non-trivial = the call returned a defined result; distinct by input",
     assumptions=["programs whose decoded table contains sbrk are not RUN (one sbrk may map the whole free address space; C05 covers sbrk): "
                  "they are still parsed and compared, the model predicts the skip from its own table",
                  "the exit kind of a Psi_M run is required to be one of the defined ones (halt / panic / out-of-gas) and is predicted only "
                  "where the model fixes it (rejected blob => panic, the refine program); per-instruction conformance is C01's",
-                 "the measured allocation of a Psi_M run is compared with the load bound plus what a run may copy out of mapped memory "
-                 "(declared + 64 KiB)"],
+                 "the measured allocation of a Psi_M run is compared with the load account plus what a run may copy out of mapped memory "
+                 "(declared + 8 KiB)"],
     trusted_base=["Model/PvmGo.v is a hand transliteration of the Go parsing glue (slice capacity, uint32/uint64 wrap, append growth as "
                   "runtime.nextslicecap without size-class rounding, sizeof(InstrMeta)=40, sizeof(BlockMeta)=32, page = 4096+32 bytes)",
                   "the table 'which register fields the handlers of an operand category use' (cat_uses) was transcribed from "
@@ -52,7 +53,7 @@ MANIFEST = dict(
          "gas) end within gas+1 steps (over Model/PvmRun.v). Allocation: the model's account of every make / &T{} / append while loading "
          "is <= 512*|blob| + 64 KiB + 129/128 * (z*Z_P + P(s) + P(|o|) + P(|w|) + P(|a|)). Tie to the code on every run: malformed-input "
          "stream through the real Go entry points under recover(), outcome class and parse observables equal to the extracted model, "
-         "measured TotalAlloc within the bound, gas used <= limit, watchdog.",
+         "measured TotalAlloc <= 21/20 of the model's exact account + a small fixed slack (and the account within the proved bound), gas used <= limit, watchdog.",
     note="PARTIAL where the property speaks of real memory: the theorem bounds the model's account of requested sizes; the Go allocator, "
          "size-class rounding, the page map's buckets and run-time allocations (sbrk pages up to the address space, host-call buffers, the "
          "halt output) are measured, not proved. Not modelled: the interpreter handlers themselves (C01/C02/C05: their table lookups are "
